@@ -76,6 +76,8 @@ func (d *dereference) jSchema(astNode schema.ASTNode) {
 			d.visitedTypes[name] = empty
 			d.userType(name)
 		}
+	case "":
+		// A schema without a root value: nothing to dereference.
 	default:
 		panic(errs.ErrRuntimeFailure.F())
 	}
